@@ -93,6 +93,9 @@ func init() {
 	reg(&PropDef{
 		ID:     "C10",
 		Level:  "other",
+		// the input goroutine hands every chunk to the main loop through a channel: the slice it sends must be one
+		// it never touches again (fresh in the iteration), otherwise the two goroutines share the bytes without a lock
+		Funcs:  []string{"tcell.(*tScreen).inputLoop"},
 		Custom: []func(*PropRun){c10Discipline},
 		Trusted: []string{"lock discipline implies data-race freedom (standard theorem, assumed; sync.Mutex semantics)",
 			"functions listed as initfuncs run before the screen is shared with another goroutine (stated precondition of Init / constructors)"},
